@@ -13,14 +13,14 @@ from .driver import VERIF
 
 ENGINES = {
     "C07": ["simdst.engines.c07_pool", "simdst.engines.c07_hist"],
-    "C08": ["simdst.engines.c08_pool", "simdst.engines.c08_hist"],
+    "C08": ["simdst.engines.c08_pool", "simdst.engines.c08_hist", "simdst.engines.c08_threads"],
     "C09": ["simdst.engines.c09_hist", "simdst.engines.c09_hedge"],
-    "C12": ["simdst.engines.c12_hist"],
+    "C12": ["simdst.engines.c12_hist", "simdst.engines.c12_threads"],
     "C14": ["simdst.engines.c14_sk"],
     "C19": ["simdst.engines.c19_rand"],
 }
 
-ENGINE_NAMES = {"simdst.engines.c07_pool": "A", "simdst.engines.c07_hist": "B", "simdst.engines.c08_pool": "A8", "simdst.engines.c08_hist": "B8", "simdst.engines.c09_hist": "B9", "simdst.engines.c09_hedge": "B9h", "simdst.engines.c12_hist": "H", "simdst.engines.c14_sk": "K", "simdst.engines.c19_rand": "R"}
+ENGINE_NAMES = {"simdst.engines.c07_pool": "A", "simdst.engines.c07_hist": "B", "simdst.engines.c08_pool": "A8", "simdst.engines.c08_hist": "B8", "simdst.engines.c09_hist": "B9", "simdst.engines.c09_hedge": "B9h", "simdst.engines.c12_hist": "H", "simdst.engines.c14_sk": "K", "simdst.engines.c19_rand": "R", "simdst.engines.c08_threads": "T8", "simdst.engines.c12_threads": "HT"}
 
 # Probes whose firing depends on what the LIBRARY does (which seam it uses, whether a solver returned a value)
 # rather than on what the harness generates.  A legitimate refactor may stop reaching a seam (e.g. another
@@ -31,7 +31,7 @@ ADVISORY_PROBES = {
     "quantum_bracketed", "npa1_compared", "quantum_gap", "level2", "level2_2x3", "primal_value", "local_unitary_checked",
     "randomized_stage_ran", "exact_regime:k_ge_min_dim", "exact_regime:rank_one", "exact_regime:transpose_exact",
     "result_differs_between_rng_states", "own_upper_bound:dps2", "own_upper_bound:bilinear",
-    "switch_inside_generator", "pgm_checked", "measure_checked", "popt_sdp_checked", "real_pool_crosscheck",
+    "switch_inside_generator", "switch_inside_library_call", "pgm_checked", "measure_checked", "popt_sdp_checked", "real_pool_crosscheck",
 }
 
 SHRINK_BUDGET = {"quick": 20.0, "thorough": 180.0}
